@@ -77,6 +77,14 @@ THEOREMS = [
     "FaxVerif.C01.backendOK_atlas",
     "FaxVerif.C01.backendOK_cmsAod",
 ]
+
+# extensions built beside this module (general Aggregate; nesting of arbitrary depth): their theorems, modules, streams
+from props import c01_agg  # noqa: E402
+from props import c01_deep  # noqa: E402
+
+THEOREMS += c01_agg.THEOREMS_AGG + c01_deep.THEOREMS_DEEP
+LEAN_MODULES += c01_agg.LEAN_MODULES_AGG + c01_deep.LEAN_MODULES_DEEP
+SETUP_MODULES += c01_agg.SETUP_MODULES_AGG + c01_deep.SETUP_MODULES_DEEP
 RULE = (
     "stream 'tie': random queries of the fragment F0-lite (chains coll.{Select|Where}* with pure lambdas, Count/Sum, arithmetic, "
     "event-level rows with scalar and vector columns, element-level rows), model text vs implementation text on the three backends; "
@@ -454,6 +462,8 @@ def run(ctx):
     lazy_tie_stream(ctx, 90 if ctx.tier == "quick" else 1500)
     nested_tie_stream(ctx, 90 if ctx.tier == "quick" else 1500)
     capture_tie_stream(ctx, 66 if ctx.tier == "quick" else 900)
+    c01_agg.stream(ctx)
+    c01_deep.stream(ctx)
     # the differential stream (known findings were replayed above)
     saved = _P.known
     _P.known = lambda c: None
